@@ -17,7 +17,7 @@ from sim import outcome, rng, seams, shrink, workload
 
 ID = "C13"
 MODULE = "checks.c13_factories"
-SIG_CLASSES = ["plain", "name", "kwonly", "varkw", "object", "partial", "builtin", "nddefault", "posonly-name", "varpos-signature", "wraps-plain", "wraps-name", "lru-name", "varargs"]
+SIG_CLASSES = ["plain", "name", "kwonly", "varkw", "object", "partial", "builtin", "nddefault", "posonly-name", "varpos-signature", "wraps-plain", "wraps-name", "lru-name", "varargs", "attr-shape"]
 FAULTS = ["raise", "raise-typeerror", "type-list", "type-none", "type-scalar", "type-duck", "type-memoryview", "type-npscalar", "shape-extra", "shape-transposed", "shape-broadcast"]
 
 
@@ -165,6 +165,17 @@ def make_factory(sigclass, arr, pos, log, fault=None):
                 record((shape,), {})
                 return produce(shape)
         return F(), set()
+    if sigclass == "attr-shape":
+        class Init:  # an initializer object that carries array-like attributes of its own: still a factory, contributes no size constraint
+            def __init__(self):
+                self.shape = tuple(arr.shape) if pos % 2 else tuple(reversed(arr.shape)) + (7,)
+                self.dtype = arr.dtype
+                self.ndim = len(self.shape)
+
+            def __call__(self, shape):
+                record((shape,), {})
+                return produce(shape)
+        return Init(), set()
     if sigclass == "partial":
         def g(shape, name=None, *, extra=0):
             record((shape,), {"name": name, "extra": extra})
